@@ -46,7 +46,7 @@ def read (cfgCap : Nat) (inp : ByteArray) : Result :=
     let body := bytesToList inp 13 inp.size
     match Dec.init body with
     | none =>
-      { out := .empty, status := if body.length < 5 then .unexpectedEOF else .err "range decoder init",
+      { out := .empty, status := initStatus body,
         openError := true, header := some hdr }
     | some rd =>
       let h : Hist := { out := .empty, dictStart := 0, cap := cap }
